@@ -114,8 +114,10 @@ def handle : List Sexp → Option Sexp
       let idemHolds := match reparseX PSt.init ((flatten p xs).map normF) with
         | some xs2 => decide (flatten p xs2 = flatten p xs)
         | none => false
+      -- input-side form of the text hypotheses (xml_roundtrip_partial), for the widest codec
+      let inInput := inDom && inputTextOK (fun _ => true) p xs
       pure (.list [ofBool inDom, ofBool holds, ofBool inText, ofBool textHolds, ofBool inAscii, ofBool asciiHolds,
-                   ofBool inIdem, ofBool idemHolds])
+                   ofBool inIdem, ofBool idemHolds, ofBool inInput])
   | [.atom "reparse", .str t] =>
       -- what XMLParser + EmptyTagFilter deliver for this text, according to the specification side
       match Reader.tokenize t with
